@@ -25,7 +25,7 @@ import itertools
 import beanquery
 from beanquery.parser import ast
 
-from ..harness import HTable, connect, select, F, C, col, crash_fingerprint, typed
+from ..harness import HTable, UTable, connect, select, F, C, col, crash_fingerprint, typed
 from ..par import Acc, run_shards, mine
 from ..ref import select as refselect
 from ..ref.expr import RefError
@@ -273,6 +273,13 @@ def sweep1(shard, nshards, L, K, tier, seed, only_len=None):
         acc.count('tables')
         for tag, stmt in stmts:
             run_one(conn, rows, tag, stmt, acc, {'kind': 'stmt', 'K': K, 'tier': tier})
+        if idx % 4 == 1:
+            # the same statements on a user table whose columns all share one slot-less class (tests/tables.py style)
+            utable = UTable(COLS, rows)
+            uconn = connect(t=utable, postings=utable)
+            acc.count('slotless_column_tables')
+            for tag, stmt in stmts:
+                run_one(uconn, rows, tag, stmt, acc, {'kind': 'stmt', 'K': K, 'tier': tier, 'slotless': True})
         if idx % 3001 == 7:
             acc.sample({'table': jsonable(rows), 'statement': show(stmts[(idx * 7) % len(stmts)][1])})
     acc.add('nstatements', len(stmts))
@@ -491,7 +498,7 @@ def replay(c):
         sweep3(acc, only=c['tag'])
     else:
         rows = [tuple(r) for r in unjson(c['rows'])]
-        table = HTable(COLS, rows)
+        table = (UTable if c.get('slotless') else HTable)(COLS, rows)
         conn = connect(t=table, postings=table)
         for tag, stmt in statements(c['K'], 'thorough') + agg_statements() + plain_statements():
             if tag == c['tag']:
@@ -523,7 +530,7 @@ def run(ctx):
         'exhaustive': True,
         'bound': f'ALL tables of <= {L} rows over a 9-letter row alphabet x ALL ORDER BY lists of <= {K} keys (of 4) with every direction vector x 5 key forms x DISTINCT/LIMIT combinations'
                  + (' + all 4-key lists on tables of <= 3 rows' if ctx.thorough else ''),
-        'tables': n['tables'], 'statements_per_table': sorted(acc.sets['nstatements']),
+        'tables': n['tables'], 'tables_with_slotless_column_class': n['slotless_column_tables'], 'statements_per_table': sorted(acc.sets['nstatements']),
         'direction_patterns_seen': len(acc.sets['direction_patterns']),
         'results_with_2plus_rows': n['results_with_2plus_rows'], 'distinct_removed_rows': n['distinct_removed'], 'limit_cut_rows': n['limit_cut'],
         'table_kind_sweep': {'column_pairs': acc2.n['column_pairs'], 'pairs_where_order_changes_rows': acc2.n['pairs_where_order_changes_rows']},
